@@ -8,6 +8,7 @@ from pysdmx.model import TransformationScheme
 from pysdmx.model.dataflow import Dataflow, DataStructureDefinition, Schema
 from pysdmx.model.vtl import VtlDataflowMapping
 
+from vtlengine import _verif
 from vtlengine.API._InternalApi import (
     _check_script,
     _handle_url_datapoints,
@@ -92,6 +93,7 @@ def create_ast(text: str) -> Start:
     # must run under parser_lock to stay safe across threads (see parser_lock docs).
     with parser_lock:
         cst = vtl_cpp_parser.parse(text)
+        _verif.yield_point("parse:parsed")
         error = vtl_cpp_parser.get_syntax_error()
         if error is not None:
             raise VTLSyntaxError(
